@@ -386,6 +386,15 @@ func (rw *responseWriter) ReadFrom(r io.Reader) (int64, error) {
 		nr, err := io.Copy(rw.w, r)
 		return nr + ns, err
 	}
+	// the reader is handed to the underlying writer as is, so the header has to be
+	// written now if nothing above did it (no sniffing with a negative minimum length),
+	// or the deferred status would be lost and Close would still try to encode
+	if !rw.wroteHeader {
+		if rw.statusCode != 0 {
+			rw.ResponseWriter.WriteHeader(rw.statusCode)
+		}
+		rw.wroteHeader = true
+	}
 	nr, err := rf.ReadFrom(r)
 	return nr + ns, err
 }
